@@ -177,6 +177,11 @@ pub fn check_message(obs: &mut Obs, spec: &Msg31, rng: &mut Rng, shape: u64, cas
             obs.violation(format!("radial conversion {}", p.signature()), p.message, replay);
             return;
         }
+        (Ok(Err(_)), Ok(Err(_))) if matches!(mon::catch(|| msg.header.date_time()), Ok(None)) => {
+            // the header has no date-time at all: there is no collection time to report
+            obs.count("conversions_refused_for_a_header_without_date_time", 1);
+            return;
+        }
         (a, b) => {
             obs.violation(
                 "radial conversion refuses a decoded message",
@@ -195,9 +200,35 @@ pub fn check_message(obs: &mut Obs, spec: &Msg31, rng: &mut Rng, shape: u64, cas
         return;
     }
     let h = &spec.hdr;
-    let want_ts = cal::icd_epoch_ms(h.date, h.time as u64);
+    // collection time: always the header's own date-time in epoch milliseconds (whatever the
+    // fields hold), and for fields inside the ICD's domain also the integer calendar's instant
+    let in_domain = h.date >= 1 && h.time < 86_400_000;
+    let want_ts = cal::icd_epoch_ms(h.date.max(1), h.time as u64);
+    match mon::catch(|| msg.header.date_time()) {
+        Ok(Some(dt)) => {
+            if ra.collection_timestamp() != dt.timestamp_millis() {
+                obs.violation(
+                    "radial collection time differs from the header's date-time",
+                    format!("date {} time {}: header {} ({} ms), radial {} ms", h.date, h.time, dt, dt.timestamp_millis(), ra.collection_timestamp()),
+                    replay,
+                );
+                return;
+            }
+            if !in_domain {
+                obs.count("collection_times_checked_for_out_of_domain_fields", 1);
+            }
+        }
+        Ok(None) => {
+            obs.violation("radial converted although the header has no date-time", format!("date {} time {}", h.date, h.time), replay);
+            return;
+        }
+        Err(p) => {
+            obs.violation(format!("header date_time {}", p.signature()), p.message, replay);
+            return;
+        }
+    }
     let checks: [(&str, bool, String); 7] = [
-        ("collection_timestamp", ra.collection_timestamp() == want_ts, format!("expected {}, observed {}", want_ts, ra.collection_timestamp())),
+        ("collection_timestamp", !in_domain || ra.collection_timestamp() == want_ts, format!("expected {}, observed {}", want_ts, ra.collection_timestamp())),
         ("azimuth_number", ra.azimuth_number() == h.az_num, format!("expected {}, observed {}", h.az_num, ra.azimuth_number())),
         ("azimuth_angle", ra.azimuth_angle_degrees().to_bits() == h.az.to_bits(), format!("expected {}, observed {}", h.az, ra.azimuth_angle_degrees())),
         ("azimuth_spacing", ra.azimuth_spacing_degrees().to_bits() == (h.spacing as f32 * 0.5).to_bits(), format!("code {}: expected {}, observed {}", h.spacing, h.spacing as f32 * 0.5, ra.azimuth_spacing_degrees())),
@@ -354,13 +385,21 @@ distinct = distinct (block subset, gate class, word size, scale==0) shapes, plus
     }
 
     // ---- random messages ---------------------------------------------------------------------------
-    let total: u64 = ctx.tier.pick(6_000, 3_000_000);
+    let total: u64 = ctx.tier.pick(60_000, 3_000_000);
     par_cases(ctx, total, |i, obs| {
         let mut rng = Rng::derive(seed, 7, 10_000 + i);
         let subset = if i < 1024 { i as u16 } else { rng.below(1024) as u16 };
         let permute = rng.chance(1, 2);
         let mut spec = gen_msg31(&mut rng, subset, permute, i % 40 == 0);
         spec.hdr.status = rng.below(6) as u8;
+        // date/time fields at and beyond the edges of the ICD's domain: the collection time is
+        // still whatever the header's own accessor says
+        if rng.chance(1, 6) {
+            spec.hdr.date = *rng.pick(&[0u16, 1, 1, 2, 65535]);
+        }
+        if rng.chance(1, 6) {
+            spec.hdr.time = *rng.pick(&[0u32, 86_399_999, 86_400_000, 86_400_001, 172_800_000, 1 << 31, u32::MAX, rng.clone().next_u64() as u32]);
+        }
         let shape = super::cmp31::shape(&spec);
         check_message(obs, &spec, &mut rng, shape, i);
         if obs.want_sample() && i % 601 == 3 {
